@@ -254,11 +254,11 @@ def c03(tier):
     return finish(ev, rep)
 
 
-def simple(prop, cfgs, assumptions=()):
+def simple(prop, cfgs, assumptions=(), thorough_extra=()):
     def f(tier):
         ev = Evidence(prop, tier, core.seed())
         rep = Reporter(prop, ev)
-        for module, cfg in cfgs:
+        for module, cfg in list(cfgs) + (list(thorough_extra) if tier == "thorough" else []):
             c = cfg.replace("TIER", tier)
             if not os.path.exists(os.path.join(core.SPEC, c)):
                 c = cfg.replace("TIER", "quick")
@@ -268,9 +268,38 @@ def simple(prop, cfgs, assumptions=()):
     return f
 
 
-c01 = simple("C01", [("MC_Curve.tla", "MC_Curve_eval_TIER.cfg")])
+def oracle(ev, tier):
+    """design-level theorems that tie the reference semantics down (MC_Oracle): a violation is a defect of the
+    specification itself and is reported as a machinery failure"""
+    res = run_tlc("MC_Oracle.tla", f"MC_Oracle_{tier}.cfg", timeout=3000)
+    need_ok(res, "MC_Oracle")
+    if res.violation:
+        raise core.MachineryError("oracle theorem violated:\n" + res.violation[:3000])
+    ev.add_tlc(res, f"MC_Oracle_{tier}.cfg (theorems: partition of unity, local support, Refine/Coarsen, union, reparametrisation, linearity, Java arithmetic)")
+
+
+def with_oracle(prop, cfgs):
+    inner = simple(prop, cfgs)
+
+    def f(tier):
+        ev = Evidence(prop, tier, core.seed())
+        rep = Reporter(prop, ev)
+        oracle(ev, tier)
+        for module, cfg in cfgs:
+            c = cfg.replace("TIER", tier)
+            if not os.path.exists(os.path.join(core.SPEC, c)):
+                c = cfg.replace("TIER", "quick")
+            model_replay(prop, tier, ev, rep, module, c)
+        if tier == "thorough" and prop == "C01":
+            model_replay(prop, tier, ev, rep, "MC_Curve.tla", "MC_Curve_eval2_thorough.cfg")
+        return finish(ev, rep)
+    return f
+
+
+c01 = with_oracle("C01", [("MC_Curve.tla", "MC_Curve_eval_TIER.cfg")])
 c02 = simple("C02", [("MC_Curve.tla", "MC_Curve_basis_TIER.cfg")])
-c04 = simple("C04", [("MC_Curve.tla", "MC_Curve_insert_TIER.cfg")])
+c04 = simple("C04", [("MC_Curve.tla", "MC_Curve_insert_TIER.cfg")],
+             thorough_extra=[("MC_Curve.tla", "MC_Curve_insert2_thorough.cfg")])
 c05 = simple("C05", [("MC_Curve.tla", "MC_Curve_remove_TIER.cfg")])
 c06 = simple("C06", [("MC_Curve.tla", "MC_Curve_elevate_TIER.cfg"), ("MC_Curve.tla", "MC_Curve_decrease_TIER.cfg")])
 c07 = simple("C07", [("MC_Curve.tla", "MC_Curve_split_TIER.cfg"), ("MC_Curve.tla", "MC_Curve_join_TIER.cfg")])
